@@ -30,8 +30,11 @@ pub struct Control {
 #[cfg(jgilchrist_tcheran_verif)]
 pub mod verif {
     use std::cell::Cell;
+    use crate::chess::game::Game;
+    use std::cell::RefCell;
 
     thread_local! {
+        static STOP_NODE: RefCell<Option<Game>> = const { RefCell::new(None) };
         static POLLS: Cell<u64> = const { Cell::new(0) };
         static STOP_FROM_POLL: Cell<u64> = const { Cell::new(0) };
         static FIRST_TRUE_POLL: Cell<u64> = const { Cell::new(0) };
@@ -47,6 +50,23 @@ pub mod verif {
         FIRST_TRUE_POLL.with(|c| c.set(0));
         SHOULD_STOP_ENTRIES.with(|c| c.set(0));
         ENTRIES_AFTER_STOP.with(|c| c.set(0));
+        STOP_NODE.with(|c| *c.borrow_mut() = None);
+    }
+
+    /// Called by the search at the node where it first sees a poll read true: keeps a copy of
+    /// the search's working position (with its take-back history) for `take_stop_node`.
+    pub fn stopped_at(game: &Game) {
+        STOP_NODE.with(|c| {
+            let mut c = c.borrow_mut();
+            if c.is_none() {
+                *c = Some(game.clone());
+            }
+        });
+    }
+
+    /// The working position at the node where the last search on this thread observed its stop.
+    pub fn take_stop_node() -> Option<Game> {
+        STOP_NODE.with(|c| c.borrow_mut().take())
     }
 
     /// (polls, first poll that read true or 0, should_stop entries, entries after the stop was seen)
